@@ -48,7 +48,9 @@ Clientbound status side: `responseBytes` / `pongBytes` (what a server writes:
 pong carrying the `Long` it DECODED, re-encoded), and the client's reading of them —
 `decodeClientboundStatus` = the `packet.read` of the class `read_packet` selects by id (`String.read`
 / `Long.read`; an id that is not in `clientbound.status.get_packets` gives a bare `Packet`, i.e.
-`StatusPkt.other`), `clientRecvStatus` = that applied to every frame of the stream.
+`StatusPkt.other`), `clientRecvStatus` = that applied to every frame of the stream, until
+`read_packet` raises — `EOFError` at the latest, when the stream is exhausted (the client has no
+notion of a "clean end"; only the reference server's `recvFrames` has).
 `String.read` has NO length limit in the library (`VarInt.read`, `read(length)`, `EOFError` when
 short, `decode('utf-8')`).
 -/
@@ -305,14 +307,18 @@ def decodeStatusAll : List (Nat × Bytes) → List StatusPkt × Option Err
     | .error e => ([], some e)
     | .ok s => (s :: (decodeStatusAll ps).1, (decodeStatusAll ps).2)
 
-/-- The client's networking thread on the server → client stream of a status connection: the
-packets handed to `StatusReactor.react`, and the exception that ended the run (`none`: clean end
-of stream at a frame boundary). -/
-def clientRecvStatus (segs : Segs) : List StatusPkt × Option Err :=
-  let r := recvFrames (segs.flatten.length + 1) (Sock.plain segs)
+/-- The client's networking thread on the server → client stream of a status connection
+(`NetworkingThread._run_network_loop`: `read_packet` — C01's reader `readAll` — until it raises, each
+frame handed to the `packet.read` of its class): the packets handed to `StatusReactor.react`, and
+the exception that ended the run.  The loop has no other way out: when the stream is EXHAUSTED — no
+byte at all, or a clean end between two frames — `VarInt.read` gets an empty `read(1)` and raises
+`EOFError`, so the run ends with `.eof` there too (exactly as `readAll … = (…, .eof)`); a frame whose
+`read` raises ends it earlier with that exception. -/
+def clientRecvStatus (segs : Segs) : List StatusPkt × Err :=
+  let r := readAll noZlib false segs
   let d := decodeStatusAll r.1
   (d.1, match d.2 with
-        | some e => some e
+        | some e => e
         | none => r.2)
 
 /-! ### seeded encoder faults for the negative witness -/
